@@ -385,8 +385,17 @@ def h11b(c, n=2):
         c.cover("restart")
 
 
-OUT = ["thread schedules below handler granularity", "the socket / listener layer", "Betdaq polling", "more than 2 bets / K steps"]
+def h11_betdaq(c):
+    """Betdaq (polling, C03 world H03b-betdaq): one request through the real BetdaqExecution with polls before and after the answer - a poll that
+    reports the order live (Unmatched, or Suspended while the market is suspended) never completes it locally nor drops it from live_orders"""
+    from .c03 import h03b_betdaq
+    from .c06 import _Only
+    h03b_betdaq(_Only(c, ("poll-reporting-the-order-live", "no-exception")))
+
+
+OUT = ["thread schedules below handler granularity", "the socket / listener layer", "Betdaq polling beyond H11-betdaq (one order, one request, one poll before and one after the answer)", "more than 2 bets / K steps"]
 HARNESSES = [
+    Harness("H11-betdaq", h11_betdaq, pattern="P5 fault schedule as a variable (Betdaq polling)", requires=["handled", "poll-in-flight"], outside=OUT, selfcheck=False),
     Harness("H11a", h11a, quick=dict(K=3), thorough=dict(K=5), pattern="P3/P5 schedule as a variable", requires=["run", "request", "response-delivered-late", "exchange-fill", "snapshot", "stale-snapshot", "replaced-bet"],
             outside=OUT, max_paths=(400000, 5000000), wall_s=(300, 3000), selfcheck=False),
     Harness("H11a-async", h11a, quick=dict(K=3, async_place=True), thorough=dict(K=4, async_place=True), pattern="P3/P5 schedule as a variable", requires=["run", "snapshot"],
